@@ -113,14 +113,17 @@ CLAIMED = {
  'C11': dict(
     text="Theorems over the update model: for element kinds without children the result of update is the newer definition "
          "(equal to b when b is newer, a itself otherwise), fails exactly on incompatible definitions, is idempotent, "
-         "commutes up to equality and never lowers the version; for a whole category of an ontology and ANY element update "
+         "commutes up to equality and never lowers the version; for properties (with concept associations) and event types (with "
+         "parent, properties, relations, attachments): when the other definition is a valid upgrade the result takes its version and "
+         "attributes, keeps / updates / adopts the children and compares EQUAL to it, otherwise the definition is kept or the update "
+         "fails exactly on incompatibility, hence idempotence and monotone versions (premise: child names unique per group); for a whole category of an ontology and ANY element update "
          "function, afterwards A holds exactly the elements of either ontology, updated from their counterpart when both "
          "define them, and the update fails exactly when some pair cannot be updated. Tied to Ontology.update (Ontology "
          "instance and lxml element paths) on directed single-edit scenarios for every edit of the catalogue and random "
          "pairs/chains (value-level model vs. resulting serialisation); oracle: error iff incompatible (independent edit "
          "classification), element-wise newest, idempotent, commutative, monotone versions, B untouched, independence under "
          "later mutation and later in-place upgrades.",
-    note=TB + "the laws for event types / properties (children) are covered by correspondence + oracle, not proved; object "
+    note=TB + "commutativity for definitions with children is covered by correspondence + oracle, not proved; object "
          "identity (independence) is outside the value-level model and decided by the oracle; 6 open known findings "
          "(adoption by reference, re-pointed event type back references).",
     technique="Coq proof over value-level update model + model/implementation correspondence + history oracle", ref='5 C11'),
